@@ -25,6 +25,9 @@ CHECKS['C06'] = (REF[0],'runtime monitoring: symbol-table history checker agains
 CHECKS['C07'] = (REF[0],'runtime monitoring: generated copy/mutation histories with the state of every variable displayed after each step, judged by a reference heap model', REF[1], REF[2], '§6 C07')
 CHECKS['C08'] = (REF[0],'runtime monitoring: differential execution against the reference evaluator over arity x argument-count families with evaluation-order probes, object families, deep recursion and random method/type programs', REF[1], REF[2], '§6 C08')
 CHECKS['C09'] = (REF[0],'runtime monitoring: differential execution against the reference evaluator over raise-kind x call-depth x handler-placement families and random programs, plus quiescent-point invariants (call stack empty, scope depth 0) observed through hooks', REF[1], REF[2], '§6 C09')
+CHECKS['C12'] = ('exploration','runtime monitoring: history checker over the element API (returned value, whole state and key-order invariant after every step, against a sequence / ordered-map model; bounded-exhaustive + random) and the same histories as Zn programs against the reference evaluator', 'List and dictionary operation histories are applied to the real value objects and through the evaluator; after every step the observable state is compared with a small executable model. Exhaustive for histories up to length 3/4 over the operation alphabet, random beyond.', 'Trusts: the sequence/ordered-map model in c12.go and znref; operations the documentation leaves open are not judged (listed in the evidence rule).', '§6 C12')
+CHECKS['C14'] = ('exploration','runtime monitoring: text operations over all index pairs against a code-point model; % formatting against an independent reference formatter (Python % operator)', 'Every index pair of 取样 around the valid range is applied to texts with multi-byte, astral and combining characters and compared with a code-point model; templates mixing literal text and the documented directives are formatted by the interpreter and compared with Python; malformed templates must be errors.', 'Trusts: Python 3 % formatting and Go unicode/utf8; undocumented directive combinations and non-finite numbers are exercised for crash-freedom only.', '§6 C14')
+CHECKS['C19'] = ('exploration','runtime monitoring: differential testing of 生成JSON / 解析JSON against Python json (independent RFC 8259 implementation), including every single-character corruption of small documents', 'Generated JSON text is parsed by Python and compared structurally; documents encoded by Python are parsed by the interpreter and compared including key order; corrupt documents must raise an exception that a 拦截 handler catches exactly when Python rejects them.', 'Trusts: Python 3 json module; overflowing literals, lone surrogates and non-object top levels are not judged.', '§6 C19')
 NOT_YET = {}
 
 def main():
